@@ -1028,6 +1028,26 @@ func rulePairUpdate(p *Prog, r *Report) {
 			}
 		}
 	}
+	// the two addressing forms are not interchangeable: a path that does not end in the update key addresses the key entry of the
+	// node the path yields, under the sub-keys of that node. Re-entering the function with the update key as the last segment
+	// applies the rules of the other form one level down, including its fall-back to the members of a list found under the key.
+	for _, c := range selfCalls(fn) {
+		k0 := -1
+		for i, prm := range fn.Params {
+			if prm == keys0P {
+				k0 = i
+			}
+		}
+		if k0 < 0 || k0 >= len(c.Call.Args) {
+			continue
+		}
+		construct := ord.key(n, "recursion keeps the addressing form")
+		if c.Call.Args[k0] == ssa.Value(keyP) {
+			r.Bad(rule, n, construct, p.Pos(c.Pos()), "the function calls itself with the update key as the last path segment: the node is then treated as if the path had ended in the key, and list members below it are replaced although the addressed node fails the sub-key conditions")
+		} else {
+			r.OK(rule, n, construct, p.Pos(c.Pos()), "the last-segment argument of the self call is not the update key")
+		}
+	}
 	// pairing: per block, replacement events == counter increments
 	incs := map[*ssa.BasicBlock]int{}
 	for _, b := range fn.Blocks {
